@@ -90,12 +90,26 @@ func MatchRecords(plan *Plan, tagOf map[string]string, recs []Record, budget int
 	var allObs []obs
 	type group struct{ obs, exp []int }
 	var groups []group
+	// a tag may have been emitted at several receivers (the same payload object re-emitted): its expected
+	// arrivals are the sum over those receivers
+	var tags []string
+	recvOf := map[string][]string{}
 	for _, rk := range plan.Recv {
 		tag, ok := tagOf[rk]
 		if !ok {
 			continue
 		}
-		exp := plan.Deliveries[rk]
+		if _, seen := recvOf[tag]; !seen {
+			tags = append(tags, tag)
+		}
+		recvOf[tag] = append(recvOf[tag], rk)
+	}
+	for _, tag := range tags {
+		rk := strings.Join(recvOf[tag], "+")
+		var exp []Delivery
+		for _, r := range recvOf[tag] {
+			exp = append(exp, plan.Deliveries[r]...)
+		}
 		got := byTag[tag]
 		ce, co := map[string]int{}, map[string]int{}
 		for _, d := range exp {
